@@ -91,6 +91,13 @@ class World:
     def ensure(self, name, cond, **info):
         self.obligations.append((name, cond, info))
 
+    def lemma(self, name, cond, **info):
+        """An ensures clause that later clauses of the same path may build on (cut rule): in symbolic mode it is
+        discharged right here under the current path condition and, only if proved, added to the solver's facts;
+        otherwise it stays an ordinary obligation (reported with its counter-model at the end of the path).
+        Natively it is an ordinary clause."""
+        self.ensure(name, cond, **info)
+
     def canary(self, name, cond):
         """A deliberately wrong clause; the engine must refute it (vacuity guard)."""
         self.canaries.append((name, cond))
@@ -138,6 +145,15 @@ class SymWorld(World):
 
     def assume(self, cond):
         self.c.assume(self._b(cond))
+
+    def lemma(self, name, cond, timeout_ms=10000, **info):
+        t = self._b(cond)
+        verdict, _ = self.c.prove(t, timeout_ms)
+        if verdict == 'unsat':
+            self.c.assume_axiom(t)                     # proved under the path condition, which only grows from here
+            self.obligations.append((name, z3.BoolVal(True), dict(info, lemma='discharged at the point of use')))
+        else:
+            self.obligations.append((name, cond, info))
 
     def fn(self, name, arity=None, positive=False):
         """Uninterpreted deterministic function of its (real) arguments (A-models)."""
